@@ -44,7 +44,10 @@ PROPS = {
     "C02": _p(
         "Theorems: the generated precedence tables (re-extracted from parse.rs on every run) equal the manual's 13-level table; result type per operator and operand types; relational results are 0 or -1; logical operators are the 16-bit bitwise ones; string/number mixes are TYPE MISMATCH; parse-of-render results as far as proved (see evidence). K: parser model vs real parser on rendered trees, token soup and mutated lines (ASTs with columns identical), operator x type x boundary matrix. F: random expression trees rendered with the parentheses the MANUAL's table requires (or more) must parse back to the same tree on the real parser.",
         "Partial where the evidence lists _partial theorems (parse_render). Trusted: Lean kernel, generated tables translator, correspondence.",
-        ["parse", "ops-matrix", "ops-conv", "find-c02"], RULE_PROG, partial="parse_render proved for the fragment stated in Thm/C02.lean"),
+        ["parse", "ops-matrix", "ops-conv", "find-c02"], RULE_PROG, partial="parse_render proved for the fragment stated in Thm/C02.lean",
+        # the model's operator arms are the documented promotion/result-type table (Thm/C02.lean); a differing
+        # operator result on concrete operands is therefore itself the failing input
+        k_is_violation=lambda req: bool(re.match(r"OP (add|sub|mul|div|divint|mod|eq|ne|lt|le|gt|ge|and|or|xor|imp|eqv|neg|not) ", req))),
     "C03": _p(
         "Theorems: a bounded slice executes at most n instructions; after interrupt the state is Stopped within 2 execute calls; at the prompt execute is a fixed point; stack push/pop never fault and are bounded; over-long lines are rejected; the model's lexer and parser are total (lexer without fuel, parser fuel = 6*tokens+20, exhaustion would be reported as a fault by the correspondence). K: every layer runs each implementation call under catch_unwind ('fault' never matches the model). F: fuzzed sessions (token soup, mutated lines, damaged programs, snapshots held across edits, interrupts at random points, deep nesting) must stay panic-free, return from every slice and be at the prompt within 4 calls of an interrupt.",
         "Partial by nature: native stack overflow, allocation failure and wall-clock hangs of the Rust runtime are not exhibited by the model; they are only explored (fuzzing with bounded nesting). Panic sites are modelled by convention (faults in Var.lean/Listing.lean) and tied by the correspondence.",
@@ -72,7 +75,7 @@ PROPS = {
     "C11": _p(
         "Theorems: number wrapper (leading blank or minus, PRINT appends one blank), the comma zone stated against the GENERATED TAB argument: 1..14 blanks ending on a multiple of 14, TAB never moves left, SPC/POS, the tracked column equals the column function of the emitted text (columnAfter, compositional). K: number formatting on 47k values incl. random bit patterns, TAB/POS grid, print-heavy sessions. F: print lists with predicted layout (strings, integers, TAB, SPC, POS, separators) carried across statements.",
         "Trusted: Rust's shortest round-trip float formatting (core::fmt contract); the model's exact-arithmetic re-implementation is validated against it by the correspondence.",
-        ["ops-fmt", "find-c11"], RULE_PROG),
+        ["ops-fmt", "ses", "find-c11"], RULE_PROG),
     "C12": _p(
         "Theorems: CLEAR sets stack, variables, dimensions, type defaults, functions, CONT state and the data cursor to their start-up values whatever the previous state; NEW additionally empties the listing, marks it dirty and turns tracing off; RUN compiles to exactly [Clear, Jump]. K: sessions with lockstep. F: arbitrary session prefixes followed by RUN / NEW+probe program / CLEAR compared with a fresh interpreter (transcripts and variable dumps).",
         "Trusted: Lean kernel, model tie. TRON is deliberately carried across RUN (it is how tracing is used).",
@@ -86,9 +89,9 @@ PROPS = {
         "Partial: 'behaves identically' is decided by the oracle on the implementation (and by C20's relocation lemmas), not by a composed theorem.",
         ["lex-renum", "lst-renum", "hist", "find-c14"], RULE_PROG, partial="renum_behaviour theorem not composed"),
     "C15": _p(
-        "Theorems: the sorted association list refines the map LineNumber -> Line: insert/replace, delete (absent = no-op), range delete removes exactly the keys in the inclusive range, iterating listLine emits exactly the lines in range in ascending order and terminates, numbering facts of the RENUM plan, error returns leave the listing unchanged. K: exhaustive edit/list/delete histories over {0,5,10,65529} up to the length bound plus random long histories. F: abstract map vs the real Listing.",
+        "Theorems: the sorted association list refines the map LineNumber -> Line: insert/replace, delete (absent = no-op), range delete removes exactly the keys in the inclusive range, iterating listLine emits exactly the lines in range in ascending order and terminates, numbering facts of the RENUM plan, error returns leave the listing unchanged. K: exhaustive edit/list/delete histories over {0,5,10,65529} up to the length bound plus random long histories on the Listing type; parser model vs real parser on LIST/DELETE operand forms (parse) and whole edit sessions (hist). F: abstract map vs the real Listing; and (find-c15) typed sessions through the whole interpreter next to a reference BTreeMap: every form n, n-, -n, a-b, bare, inverted, above 65529 of LIST and DELETE with every endpoint of {0,1,5,10,11,65528,65529,65530,99999} over six subsets of a five-number universe, plus random histories over the whole range.",
         "Trusted: Lean kernel, sorted-list model of BTreeMap, correspondence.",
-        ["lst-exh", "lst-rand"], "lst layers: exhaustive histories over a 4-number universe, random histories over 0..65529; distinct_nontrivial = distinct histories"),
+        ["lst-exh", "lst-rand", "parse", "hist", "find-c15"], "lst layers: exhaustive histories over a 4-number universe, random histories over 0..65529; find-c15: see level; distinct_nontrivial = distinct histories"),
     "C16": _p(
         "Theorems on the lexer model: alias facts (? = PRINT, ' = REM marker, =< / => / spaced relational operators, GO TO / GO SUB), case-insensitivity lemmas per scanner, keyword table facts. K: lexer model vs real lexer. F: random spellings of every realistic line and of generated program lines (case, ?, ', GO TO, =<, spaced relationals, optional LET, optional blanks): list identically (up to LET and remark marker) and run identically.",
         "Partial: the inductive whole-line theorem is not proved; whole lines are explored by the spelling oracle.",
